@@ -135,11 +135,17 @@ func assocLists(in Input) (boss, kids, pets []RecIn) {
 			b = &in.Shared[r.BossIx-1]
 		}
 		if b != nil {
-			if single || b.ID == 0 || !seen[b.ID] {
+			// identity of a belongs-to value: its primary key; without one, the in-memory value itself
+			// (shared records only) when the tree de-duplicates keyless values (see probeKeyless)
+			key := b.ID
+			if key == 0 && keylessSavedOnce && r.Boss == nil {
+				key = -int64(r.BossIx)
+			}
+			if single || key == 0 || !seen[key] {
 				boss = append(boss, *b)
 			}
-			if b.ID != 0 {
-				seen[b.ID] = true
+			if key != 0 {
+				seen[key] = true
 			}
 		}
 		kids = append(kids, r.Kids...)
@@ -194,6 +200,25 @@ func mixedPhase(recv string, a, b int) bool {
 	return (x == 'V' && y == 'P') || (x == 'P' && y == 'V')
 }
 
+// keylessSavedOnce: does the tree under test save ONE keyless belongs-to record shared by several owners
+// of a slice once (de-duplication by in-memory identity)?  Measured on the real gorm at start-up
+// (probeKeyless); while it does not, that input shape is the known finding
+// shared-belongs-to-without-key-in-slice (kept out of the main stream, replayed from the corpus);
+// once it does, the shape joins the main stream and the mirror in assocLists de-duplicates it.
+var keylessSavedOnce bool
+
+func probeKeyless(w *World) bool {
+	o := w.Run(Input{Op: "create", Type: "T0", Shape: "ptr_slice_ptr", TxMode: "default", PayVia: "map_db", SetKey: "db",
+		Shared: []RecIn{{Tag: 990, Val: 1}}, Recs: []RecIn{{Tag: 991, Val: 1, BossIx: 1}, {Tag: 992, Val: 2, BossIx: 1}}})
+	n := 0
+	for _, e := range o.Log {
+		if e.Type == "Boss" && e.Hook == "BeforeSave" {
+			n++
+		}
+	}
+	return n == 1
+}
+
 // sig: computed from the INPUT only.
 func sig(in Input) string {
 	base := strings.TrimPrefix(in.Shape, "ptr_")
@@ -211,7 +236,7 @@ func sig(in Input) string {
 			}
 		}
 	}
-	if !in.Skip && base != "struct" && in.Op != "update_column" && in.Op != "update_columns" {
+	if !keylessSavedOnce && base != "struct" {
 		n := map[int]int{}
 		for _, r := range in.Recs {
 			if !r.Nil && r.BossIx > 0 && r.BossIx <= len(in.Shared) && in.Shared[r.BossIx-1].ID == 0 {
@@ -351,6 +376,9 @@ func (g *gen) input(edge bool) Input {
 			if len(in.Recs) >= 2 && !isStruct(in.Shape) && r.Chance(1, 2) {
 				t := g.tag()
 				in.Shared = []RecIn{{ID: 900 + t, Tag: t, Val: int64(r.Range(1, 9))}}
+				if keylessSavedOnce && r.Chance(1, 2) {
+					in.Shared[0].ID = 0
+				}
 				shareFrom = r.Intn(len(in.Recs) - 1)
 			}
 			for i := range in.Recs {
@@ -410,7 +438,9 @@ func main() {
 		return OpenWorld(fmt.Sprintf("file:c13_%d_%d?mode=memory&cache=shared", os.Getpid(), wn))
 	}
 	w := open()
+	keylessSavedOnce = probeKeyless(w)
 	out := lib.NewOut(a.Out, "C13")
+	out.Extra["keyless_shared_belongs_to_saved_once"] = keylessSavedOnce
 	out.PerFile = 150
 
 	runOne := func(in Input) Obs {
@@ -550,6 +580,8 @@ func main() {
 						{Tag: 101, Val: 1, Boss: &RecIn{Tag: 303, Val: 5}}, {Tag: 102, Val: 2, BossIx: 1}, {Tag: 103, Val: 3, BossIx: 1, Kids: kidsOf(200)}}},
 					{Op: "save", Type: ty, Shape: "slice_ptr", Shared: []RecIn{{ID: 79, Tag: 304, Val: 6}}, Recs: []RecIn{
 						{Tag: 101, Val: 1, BossIx: 1}, {Tag: 102, Val: 2, BossIx: 1}}},
+					{Op: "create", Type: ty, Shape: "ptr_slice_val", Shared: []RecIn{{ID: 0, Tag: 305, Val: 7}}, Recs: []RecIn{
+						{Tag: 101, Val: 1, BossIx: 1}, {Tag: 102, Val: 2, BossIx: 1}, {Tag: 103, Val: 3, BossIx: 1}}},
 					{Op: "save", Type: ty, Shape: "ptr_struct", Recs: []RecIn{{ID: 1, Tag: 1, Val: 11, Kids: kidsOf(200), Pets: []RecIn{{Tag: 401, Val: 4}}}}, Seed: g.seed(2)},
 					{Op: "update_column", Type: ty, Shape: "ptr_struct", Recs: []RecIn{{ID: 1, Tag: 1, Val: 11, Kids: kidsOf(200)}}, Seed: g.seed(2), Pay: 61, PayVia: "map_db"},
 					{Op: "updates", Type: ty, Shape: "ptr_slice_ptr", Recs: []RecIn{{ID: 1, Tag: 1, Val: 10}, {ID: 3, Tag: 3, Val: 30}}, Seed: g.seed(3), Pay: 62, PayVia: "map_field"},
@@ -558,6 +590,9 @@ func main() {
 				}
 				for _, in := range d {
 					in.Skip, in.TxMode = sk, txm
+					if sig(in) != "" {
+						continue // a known-finding shape: corpus only
+					}
 					if in.PayVia == "" {
 						in.PayVia = "map_db"
 					}
